@@ -208,6 +208,39 @@ static void scn_stress(void)
         EV("\"e\":\"XFree\",\"s\":1,\"ret\":0");
     }
 }
+/* scenario "cycle" (free-running mode, sequential): the life cycle of a stream is repeatable without
+ * anything piling up -- after a warm-up, hundreds of further create / work / join / free cycles do
+ * not increase the number of blocks the runtime holds from the system allocator */
+static void scn_cycle(void)
+{
+    int warm = (int)opt_long("warm", 40), n = (int)opt_long("n", 400);
+    abtv_ledger_reset();
+    abtv_ledger_track(1);
+    long l0 = 0, b0 = 0;
+    for (int i = 0; i < warm + n; i++) {
+        if (i == warm) {
+            l0 = abtv_ledger_live();
+            b0 = abtv_ledger_bytes();
+        }
+        ABT_xstream x;
+        CHK(ABT_xstream_create(ABT_SCHED_NULL, &x));
+        if (i % 3 == 0) {
+            ABT_pool p;
+            ABT_thread t;
+            CHK(ABT_xstream_get_main_pools(x, 1, &p));
+            CHK(ABT_thread_create(p, workfn, NULL, ABT_THREAD_ATTR_NULL, &t));
+            CHK(ABT_thread_free(&t));
+        }
+        CHK(ABT_xstream_join(x));
+        if (i % 5 == 0) {
+            CHK(ABT_xstream_revive(x));
+            CHK(ABT_xstream_join(x));
+        }
+        CHK(ABT_xstream_free(&x));
+    }
+    EV("\"e\":\"XCycle\",\"n\":%d,\"live0\":%ld,\"live1\":%ld,\"kb0\":%ld,\"kb1\":%ld", n, l0, abtv_ledger_live(), b0 / 1024, abtv_ledger_bytes() / 1024);
+    abtv_ledger_track(0);
+}
 static void scenario(const char *name, uint64_t seed)
 {
     (void)seed;
@@ -215,6 +248,8 @@ static void scenario(const char *name, uint64_t seed)
     CHK(ABT_init(0, NULL));
     if (!strcmp(name, "ranks"))
         scn_ranks();
+    else if (!strcmp(name, "cycle"))
+        scn_cycle();
     else if (!strcmp(name, "rankstress"))
         scn_stress();
     else
